@@ -395,3 +395,757 @@ Proof.
   rewrite E1 in Hn. rewrite E2 in Hm. injection Hn as <-. injection Hm as <-.
   rewrite C1, C2. apply adjacent_sym.
 Qed.
+
+(** * Rebuilding a skeleton from its matrix / networkx form (plain class) *)
+
+(** [a] is an adjacency matrix of the skeleton of [g] under the node order [names] *)
+Definition sk_matrix_spec (g : graph) (a : matrix) (names : list name) : Prop :=
+  NoDup names
+  /\ (forall x, In x names <-> In x (node_ids g))
+  /\ dims (length names) a
+  /\ (forall i j, i < length names -> j < length names ->
+        entry a i j = Some 0%Z \/ entry a i j = Some 1%Z)
+  /\ (forall i j ni nj, nth_error names i = Some ni -> nth_error names j = Some nj ->
+        (entry a i j = Some 1%Z <-> adjacent g ni nj)).
+
+(** the skeleton of [g'] has the nodes and the adjacent pairs of the skeleton of [g], and [g']
+    holds undirected edges only *)
+Definition same_skeleton (g g' : graph) : Prop :=
+  (forall x, In x (node_ids g') <-> In x (node_ids g))
+  /\ (forall s d, adjacent g' s d <-> adjacent g s d)
+  /\ (forall e, In e (gsrc g') -> ety e = Und).
+
+Lemma same_skeleton_views g g' :
+  same_skeleton g g' ->
+  (forall x, sk_node_exists g' x = sk_node_exists g x)
+  /\ (forall s d, sk_edge_exists g' s d = sk_edge_exists g s d).
+Proof.
+  intros (Hn & Ha & _). split.
+  - intros x. apply eq_true_iff_eq. rewrite !sk_node_exists_spec. apply Hn.
+  - intros s d. apply eq_true_iff_eq. rewrite !sk_exists_spec. apply Ha.
+Qed.
+
+Section Rebuild.
+  Variable parse : name -> option (name * Z).
+  Variable fmt : name -> Z -> option name.
+  Variable k : kind.
+  Variable g : graph.
+  Variable a : matrix.
+  Variable names : list name.
+  Hypothesis HI : Inv parse k g.
+  Hypothesis Hspec : sk_matrix_spec g a names.
+
+  Theorem sk_rebuild_plain_novalidate :
+    exists g', from_matrix parse fmt Plain a (Some names) false = Ok g'
+               /\ node_ids g' = names /\ same_skeleton g g'.
+  Proof.
+    destruct Hspec as (Hnd & Hnames & Hd & Hb & Hadj).
+    set (n := length names) in *.
+    assert (Hla : length a = n) by apply Hd.
+    destruct (@from_matrix_plain_ok parse fmt a names) as (g' & Hg' & Hids & Hsrc).
+    { rewrite Hla. exact Hd. }
+    { eapply binary_is_binary; eassumption. }
+    { symmetry; exact Hla. }
+    { exact Hnd. }
+    exists g'. split; [exact Hg'|]. split; [exact Hids|].
+    fold n in Hsrc.
+    assert (Hin : forall e', In e' (gsrc g') <->
+                             exists i j, i < j /\ j < n /\ In e' (edge_of a names (i, j))).
+    { intros e'. rewrite Hsrc, in_flat_map. split.
+      - intros ([i j] & Hp & He). apply in_pairs in Hp. exists i, j. repeat split; try lia. exact He.
+      - intros (i & j & Hij & Hj & He). exists (i, j). split; [apply in_pairs; lia|exact He]. }
+    (* the cell of a pair of indices *)
+    assert (Hcell : forall i j, i < n -> j < n ->
+              exists ni nj, nth_error names i = Some ni /\ nth_error names j = Some nj
+                /\ ((adjacent g ni nj /\ entry a i j = Some 1%Z /\ entry a j i = Some 1%Z)
+                    \/ (~ adjacent g ni nj /\ entry a i j = Some 0%Z /\ entry a j i = Some 0%Z))).
+    { intros i j Hi Hj.
+      destruct (nth_error names i) as [ni|] eqn:Eni; [|apply nth_error_None in Eni; unfold n in *; lia].
+      destruct (nth_error names j) as [nj|] eqn:Enj; [|apply nth_error_None in Enj; unfold n in *; lia].
+      exists ni, nj. split; [reflexivity|]. split; [reflexivity|].
+      pose proof (Hadj i j ni nj Eni Enj) as H1. pose proof (Hadj j i nj ni Enj Eni) as H2.
+      rewrite (adjacent_sym g nj ni) in H2.
+      destruct (Hb i j Hi Hj) as [Hx|Hx]; destruct (Hb j i Hj Hi) as [Hy|Hy].
+      - right. split; [|auto]. intros Hc. apply H1 in Hc. congruence.
+      - exfalso. apply H2, H1 in Hy. congruence.
+      - exfalso. apply H1, H2 in Hx. congruence.
+      - left. split; [apply H1; exact Hx|auto]. }
+    assert (Hedges : forall e', In e' (gsrc g') ->
+              ety e' = Und /\ adjacent g (esrc e') (edst e')).
+    { intros e' He'. apply Hin in He'. destruct He' as (i & j & Hij & Hj & He').
+      destruct (Hcell i j ltac:(lia) Hj) as (ni & nj & Hni & Hnj & [(Hadj' & Hx & Hy)|(_ & Hx & Hy)]);
+        rewrite (edge_of_eval _ _ _ _ Hx Hy Hni Hnj) in He'; simpl in He'.
+      - destruct He' as [<-|[]]. split; [reflexivity|exact Hadj'].
+      - destruct He'. }
+    split; [|split].
+    - intros x. rewrite Hids. apply Hnames.
+    - intros s d. split.
+      + rewrite adjacent_edge. intros (e' & He' & Hk). destruct (Hedges e' He') as [_ Hadj'].
+        unfold edge_key in Hk. destruct Hk as [Hk|Hk]; injection Hk as <- <-;
+          [exact Hadj'|apply adjacent_sym; exact Hadj'].
+      + intros Hadj'.
+        assert (Hsd : s <> d).
+        { apply adjacent_edge in Hadj'. destruct Hadj' as (e & He & Hk). intros ->.
+          apply (inv_noloop HI e He). unfold edge_key in Hk. destruct Hk as [Hk|Hk]; congruence. }
+        assert (Hs : In s names /\ In d names).
+        { apply adjacent_edge in Hadj'. destruct Hadj' as (e & He & Hk).
+          destruct (inv_endpoints HI e He) as [H1 H2]. rewrite !Hnames.
+          unfold edge_key in Hk. destruct Hk as [Hk|Hk]; injection Hk as <- <-; auto. }
+        destruct Hs as [Hs Hd']. apply In_nth_error in Hs, Hd'.
+        destruct Hs as [i Hni]. destruct Hd' as [j Hnj].
+        assert (Hi : i < n) by (apply nth_error_Some; congruence).
+        assert (Hj : j < n) by (apply nth_error_Some; congruence).
+        assert (Hij : i <> j) by (intros ->; congruence).
+        apply adjacent_edge.
+        destruct (Nat.lt_ge_cases i j) as [Hlt|Hge].
+        * destruct (Hcell i j Hi Hj) as (ni & nj & Hni' & Hnj' & Hc).
+          rewrite Hni in Hni'. rewrite Hnj in Hnj'. injection Hni' as <-. injection Hnj' as <-.
+          destruct Hc as [(_ & Hx & Hy)|(Hc & _)]; [|contradiction].
+          exists (mk_edge s d Und). split; [|left; reflexivity].
+          apply Hin. exists i, j. split; [exact Hlt|]. split; [exact Hj|].
+          rewrite (edge_of_eval _ _ _ _ Hx Hy Hni Hnj). simpl. left; reflexivity.
+        * destruct (Hcell j i Hj Hi) as (nj' & ni' & Hnj' & Hni' & Hc).
+          rewrite Hni in Hni'. rewrite Hnj in Hnj'. injection Hni' as <-. injection Hnj' as <-.
+          destruct Hc as [(_ & Hx & Hy)|(Hc & _)]; [|exfalso; apply Hc, adjacent_sym; exact Hadj'].
+          exists (mk_edge d s Und). split; [|right; reflexivity].
+          apply Hin. exists j, i. split; [lia|]. split; [exact Hi|].
+          rewrite (edge_of_eval _ _ _ _ Hx Hy Hnj Hni). simpl. left; reflexivity.
+    - intros e' He'. apply (Hedges e' He').
+  Qed.
+
+  (** with the colleagues' theorems, the default [validate=True] as well: a graph of undirected
+      edges has no directed cycle *)
+  Hypothesis inv_init : inv_init_statement parse.
+  Hypothesis inv_step : inv_step_statement parse fmt.
+  Hypothesis cycle_check : cycle_check_statement parse.
+
+  Theorem sk_rebuild_plain v :
+    exists g', from_matrix parse fmt Plain a (Some names) v = Ok g'
+               /\ node_ids g' = names /\ same_skeleton g g' /\ Inv parse Plain g'.
+  Proof.
+    destruct sk_rebuild_plain_novalidate as (g' & Hg' & Hids & Hsame).
+    assert (HI' : Inv parse Plain g') by (eapply from_matrix_inv; eassumption).
+    exists g'. split; [|auto]. destruct v; [|exact Hg'].
+    rewrite (from_matrix_validated _ _ _ _ _ Hg').
+    rewrite check_nodes_ok; [reflexivity|].
+    intros d Hd. rewrite <- Hids in Hd.
+    destruct (@cycle_check Plain g' d HI' Hd) as (b & Hb & Hiff). rewrite Hb.
+    destruct b; [|reflexivity]. exfalso.
+    assert (Hp : path (dgraph g') d d) by (apply Hiff; reflexivity).
+    assert (Hfirst : exists w, arc (dgraph g') d w).
+    { clear -Hp. unfold path in Hp. remember d as d' in Hp at 2. clear Heqd'.
+      induction Hp as [x y Hxy|x y z _ IH1 _ _]; [exists y; exact Hxy|exact IH1]. }
+    destruct Hfirst as (w & Hw). apply arc_has_edge in Hw. destruct Hw as (e & He & _ & Ht).
+    destruct Hsame as (_ & _ & Hund). rewrite (Hund e He) in Ht. discriminate.
+  Qed.
+End Rebuild.
+
+Lemma sk_adjacency_spec parse k g a :
+  Inv parse k g -> sk_adjacency g = Ok a -> sk_matrix_spec g a (v_node_names g).
+Proof.
+  intros HI Ha. destruct (sk_adj_char HI Ha) as (Hd & Hb & _).
+  split; [apply (v_node_names_nodup HI)|]. split; [apply v_node_names_in|].
+  split; [exact Hd|]. split; [exact Hb|].
+  intros i j ni nj Hi Hj. apply (sk_adj_iff_adjacent HI Ha _ _ Hi Hj).
+Qed.
+
+Lemma sk_to_nx_spec parse k g :
+  Inv parse k g ->
+  sk_matrix_spec g (nx_to_matrix (sk_to_nx g)) (nx_nodes (sk_to_nx g)).
+Proof.
+  intros HI. set (x := sk_to_nx g).
+  assert (Hnames : forall y, In y (nx_nodes x) <-> In y (node_ids g)).
+  { intros y. unfold nx_nodes, x, sk_to_nx. rewrite dedup_in, in_app_iff, v_node_names_in.
+    split; [|auto]. intros [H|H]; [exact H|]. apply in_flat_map in H. destruct H as (p & Hp & Hy).
+    rewrite sk_edge_pairs_eq in Hp. apply in_map_iff in Hp. destruct Hp as (e & <- & He).
+    apply v_edges_in in He. destruct (inv_endpoints HI e He) as [H1 H2]. simpl in Hy.
+    destruct Hy as [<-|[<-|[]]]; assumption. }
+  split; [unfold nx_nodes, x, sk_to_nx; apply dedup_nodup|]. split; [exact Hnames|].
+  split; [apply nx_to_matrix_dims|]. split.
+  - intros i j Hi Hj.
+    destruct (nth_error (nx_nodes x) i) as [ni|] eqn:Ei; [|apply nth_error_None in Ei; lia].
+    destruct (nth_error (nx_nodes x) j) as [nj|] eqn:Ej; [|apply nth_error_None in Ej; lia].
+    rewrite (nx_to_matrix_entry _ _ _ Ei Ej). destruct (nx_has x ni nj); auto.
+  - intros i j ni nj Hi Hj. rewrite (nx_to_matrix_entry _ _ _ Hi Hj).
+    assert (Hh : nx_has x ni nj = true <-> adjacent g ni nj).
+    { unfold x, sk_to_nx. rewrite nx_has_spec. unfold adjacent.
+      split.
+      - intros [H|[_ H]]; [left|right]; revert H; apply Permutation_in; symmetry;
+          apply sk_edge_pairs_perm.
+      - intros [H|H]; [left|right; split; [reflexivity|]]; revert H; apply Permutation_in;
+          apply sk_edge_pairs_perm. }
+    rewrite <- Hh. destruct (nx_has x ni nj); split; intros H; congruence.
+Qed.
+
+(** C09: a skeleton rebuilt from its own matrix or networkx form (validate=False) has the same
+    nodes and the same adjacent pairs, and nothing but undirected edges *)
+Theorem sk_rebuild_matrix_novalidate parse fmt k g a names :
+  Inv parse k g -> sk_to_numpy g = Ok (a, names) ->
+  exists g', sk_from_matrix parse fmt Plain a (Some names) false = Ok g' /\ same_skeleton g g'.
+Proof.
+  intros HI H. unfold sk_to_numpy in H. destruct (sk_adjacency g) as [a'|x] eqn:Ea; [|discriminate].
+  simpl in H. injection H as <- <-.
+  destruct (@sk_rebuild_plain_novalidate parse fmt k g a' (v_node_names g) HI (sk_adjacency_spec HI Ea))
+    as (g' & Hg' & _ & Hs).
+  exists g'. split; assumption.
+Qed.
+
+Theorem sk_rebuild_nx_novalidate parse fmt k g :
+  Inv parse k g ->
+  exists g', sk_from_nx parse fmt Plain (sk_to_nx g) false = Ok g' /\ same_skeleton g g'.
+Proof.
+  intros HI.
+  destruct (@sk_rebuild_plain_novalidate parse fmt k g _ _ HI (sk_to_nx_spec HI)) as (g' & Hg' & _ & Hs).
+  exists g'. split; assumption.
+Qed.
+
+Section WithGraphInvSk.
+  Variable parse : name -> option (name * Z).
+  Variable fmt : name -> Z -> option name.
+  (** GraphInvProofs.v / GraphAcyclicProofs.v (colleagues), exact shape of GraphInv.v *)
+  Hypothesis inv_init : inv_init_statement parse.
+  Hypothesis inv_step : inv_step_statement parse fmt.
+  Hypothesis cycle_check : cycle_check_statement parse.
+
+  (** ... and so with either value of [validate] *)
+  Theorem sk_rebuild_matrix k g a names v :
+    Inv parse k g -> sk_to_numpy g = Ok (a, names) ->
+    exists g', sk_from_matrix parse fmt Plain a (Some names) v = Ok g'
+               /\ same_skeleton g g' /\ Inv parse Plain g'.
+  Proof.
+    intros HI H. unfold sk_to_numpy in H. destruct (sk_adjacency g) as [a'|x] eqn:Ea; [|discriminate].
+    simpl in H. injection H as <- <-.
+    destruct (@sk_rebuild_plain parse fmt k g a' (v_node_names g) HI (sk_adjacency_spec HI Ea)
+                inv_init inv_step cycle_check v) as (g' & Hg' & _ & Hs & HI').
+    exists g'. auto.
+  Qed.
+
+  (** [Skeleton.from_networkx(sk.to_networkx())] and [CausalGraph.from_skeleton(sk)] *)
+  Theorem sk_rebuild_nx k g v :
+    Inv parse k g ->
+    exists g', sk_from_nx parse fmt Plain (sk_to_nx g) v = Ok g'
+               /\ same_skeleton g g' /\ Inv parse Plain g'.
+  Proof.
+    intros HI.
+    destruct (@sk_rebuild_plain parse fmt k g _ _ HI (sk_to_nx_spec HI)
+                inv_init inv_step cycle_check v) as (g' & Hg' & _ & Hs & HI').
+    exists g'. auto.
+  Qed.
+End WithGraphInvSk.
+
+(** * Rebuilding a skeleton with the graph's own class (plain or time-series) *)
+
+Lemma find_node_app id l1 l2 :
+  find_node id (l1 ++ l2)
+  = match find_node id l1 with Some n => Some n | None => find_node id l2 end.
+Proof.
+  induction l1 as [|x l1 IH]; simpl; [reflexivity|].
+  destruct (name_eqb id (nid x)); [reflexivity|exact IH].
+Qed.
+
+Lemma find_node_update f id x ns :
+  (forall n, nid (f n) = nid n) ->
+  find_node x (update_node f id ns)
+  = match find_node x ns with
+    | Some n => Some (if name_eqb id (nid n) then f n else n)
+    | None => None
+    end.
+Proof.
+  intros Hf. induction ns as [|n ns IH]; simpl; [reflexivity|].
+  destruct (name_eqb id (nid n)) eqn:E.
+  - rewrite Hf. destruct (name_eqb x (nid n)); [rewrite E; reflexivity|exact IH].
+  - destruct (name_eqb x (nid n)); [rewrite E; reflexivity|exact IH].
+Qed.
+
+Lemma insert_edge_lag g e x : node_lag (insert_edge g e) x = node_lag g x.
+Proof.
+  unfold node_lag, get_node, insert_edge; simpl.
+  destruct (etype_eqb (ety e) Dir); [|reflexivity].
+  rewrite !find_node_update by (intros n; reflexivity).
+  destruct (find_node x (gnodes g)) as [n|]; [|reflexivity].
+  destruct (name_eqb (edst e) (nid n)); simpl; destruct (name_eqb (esrc e) _); reflexivity.
+Qed.
+
+Section AnyClass.
+  Variable parse : name -> option (name * Z).
+  Variable fmt : name -> Z -> option name.
+  Variable k : kind.
+
+  Definition has_lag (g : graph) (x : name) : Prop := exists l, node_lag g x = Some l.
+
+  Lemma add_node_any g id :
+    ~ In id (node_ids g) -> (k = TS -> exists v l, parse id = Some (v, l)) ->
+    exists g', add_node_id parse k g id VUnspec None = Ok g'
+               /\ node_ids g' = node_ids g ++ [id] /\ gsrc g' = gsrc g
+               /\ (k = TS -> has_lag g' id)
+               /\ (forall x, In x (node_ids g) -> node_lag g' x = node_lag g x).
+  Proof.
+    intros Hfresh Hparse.
+    assert (Hne : node_exists g id = false)
+      by (apply not_true_is_false; rewrite node_exists_in; exact Hfresh).
+    assert (Hold : forall n x, nid n = id -> In x (node_ids g) ->
+              match find_node x (gnodes g ++ [n]) with
+              | Some n0 => meta_lag (nmeta n0) | None => None end
+              = match find_node x (gnodes g) with
+                | Some n0 => meta_lag (nmeta n0) | None => None end).
+    { intros n x Hn Hx. rewrite find_node_app.
+      destruct (find_node x (gnodes g)) as [n0|] eqn:E; [reflexivity|].
+      apply find_node_none in E. contradiction. }
+    unfold add_node_id. destruct k.
+    - rewrite Hne. cbn [mk_node bind]. eexists. split; [reflexivity|].
+      split; [unfold node_ids, push_node; simpl; rewrite map_app; reflexivity|].
+      split; [reflexivity|]. split; [discriminate|].
+      intros x Hx. unfold node_lag, get_node, push_node; simpl. apply Hold; [reflexivity|exact Hx].
+    - destruct (Hparse eq_refl) as (v & l & Hp). unfold mk_node. rewrite Hp. cbn [bind]. rewrite Hne.
+      cbn [nmeta bind]. unfold idx_add. cbn [nmeta nid]. rewrite set_tags_lag, set_tags_var.
+      eexists. split; [reflexivity|].
+      split; [unfold node_ids, push_node; simpl; rewrite map_app; reflexivity|].
+      split; [reflexivity|]. split.
+      + intros _. exists l. unfold node_lag, get_node; simpl. rewrite find_node_app.
+        replace (find_node id (gnodes g)) with (@None node)
+          by (symmetry; apply find_node_none; exact Hfresh).
+        simpl. rewrite name_eqb_refl. simpl. apply set_tags_lag.
+      + intros x Hx. unfold node_lag, get_node; simpl. apply Hold; [reflexivity|exact Hx].
+  Qed.
+
+  Lemma add_nodes_any ids : forall g,
+    NoDup ids -> (forall x, In x ids -> ~ In x (node_ids g)) ->
+    (k = TS -> forall x, In x ids -> exists v l, parse x = Some (v, l)) ->
+    exists g', add_nodes_from parse k g ids = (Ok g', g')
+               /\ node_ids g' = node_ids g ++ ids /\ gsrc g' = gsrc g
+               /\ (k = TS -> forall x, In x ids -> has_lag g' x)
+               /\ (forall x, In x (node_ids g) -> node_lag g' x = node_lag g x).
+  Proof.
+    unfold add_nodes_from.
+    induction ids as [|id ids IH]; intros g Hnd Hfresh Hparse.
+    - exists g. simpl. rewrite app_nil_r. repeat split; auto. intros _ x [].
+    - inversion Hnd as [|? ? Hid Hnd']; subst. cbn [fold_left].
+      destruct (@add_node_any g id (Hfresh id (or_introl eq_refl))) as (g1 & Hg1 & Hn1 & Hs1 & Hl1 & Ho1).
+      { intros Hk. apply (Hparse Hk). left; reflexivity. }
+      rewrite Hg1.
+      destruct (IH g1 Hnd') as (g' & Hg' & Hn' & Hs' & Hl' & Ho').
+      + intros y Hy. rewrite Hn1, in_app_iff. intros [H|[H|[]]];
+          [apply (Hfresh y (or_intror Hy)); exact H|subst y; contradiction].
+      + intros Hk y Hy. apply (Hparse Hk). right; exact Hy.
+      + exists g'. split; [exact Hg'|]. split; [rewrite Hn', Hn1, <- app_assoc; reflexivity|].
+        split; [congruence|]. split.
+        * intros Hk x [<-|Hx]; [|apply (Hl' Hk); exact Hx].
+          destruct (Hl1 Hk) as [l Hl]. exists l. rewrite Ho'; [exact Hl|].
+          rewrite Hn1, in_app_iff. right; left; reflexivity.
+        * intros x Hx. rewrite Ho'; [apply Ho1; exact Hx|]. rewrite Hn1, in_app_iff. left; exact Hx.
+  Qed.
+
+  (** adding an undirected edge between two existing, not yet joined nodes: the time-series
+      class may store it with its endpoints exchanged, never refuses it *)
+  Lemma add_edge_und_any g s d :
+    In s (node_ids g) -> In d (node_ids g) -> s <> d ->
+    ~ In (s, d) (edge_keys g) -> ~ In (d, s) (edge_keys g) ->
+    (k = TS -> has_lag g s /\ has_lag g d) ->
+    exists s' d', add_edge_op parse fmt k g s d Und = Ok (insert_edge g (mk_edge s' d' Und))
+                  /\ ((s', d') = (s, d) \/ (s', d') = (d, s)).
+  Proof.
+    intros Hs Hd Hne H1 H2 Hlag.
+    unfold add_edge_op, run_op, add_edge, add_edge_try. cbn [fst snd str_ep].
+    apply name_eqb_neq in Hne. rewrite Hne.
+    apply edge_at_none in H1. apply edge_at_none in H2. rewrite H1.
+    unfold add_endpoint, str_ep. cbn [fst snd].
+    rewrite (proj2 (node_exists_in g s) Hs), (proj2 (node_exists_in g d) Hd).
+    unfold orient. destruct k.
+    - exists s, d. unfold set_edge. rewrite H1, H2. split; [reflexivity|left; reflexivity].
+    - destruct (Hlag eq_refl) as [[ls Hls] [ld Hld]]. rewrite Hls, Hld.
+      destruct (ld <? ls)%Z; cbn [etype_eqb].
+      + exists d, s. unfold set_edge. rewrite H2, H1. split; [reflexivity|right; reflexivity].
+      + exists s, d. unfold set_edge. rewrite H1, H2. split; [reflexivity|left; reflexivity].
+  Qed.
+End AnyClass.
+
+Section SymLoop.
+  Variable parse : name -> option (name * Z).
+  Variable fmt : name -> Z -> option name.
+  Variable k : kind.
+  Variable a : matrix.
+  Variable nodes : list name.
+  Hypothesis Hnodup : NoDup nodes.
+  Hypothesis Hbin : forall i j, i < length nodes -> j < length nodes ->
+                      entry a i j = Some 0%Z \/ entry a i j = Some 1%Z.
+  Hypothesis Hsym : forall i j, i < length nodes -> j < length nodes -> entry a i j = entry a j i.
+
+  Definition cell1 (p : nat * nat) (ni nj : name) : Prop :=
+    nth_error nodes (fst p) = Some ni /\ nth_error nodes (snd p) = Some nj
+    /\ entry a (fst p) (snd p) = Some 1%Z.
+
+  Definition joins (e : edge) (ni nj : name) : Prop :=
+    edge_key e = (ni, nj) \/ edge_key e = (nj, ni).
+
+  Definition fresh_for (g : graph) (P : list (nat * nat)) : Prop :=
+    forall e p ni nj, In e (gsrc g) -> In p P ->
+      nth_error nodes (fst p) = Some ni -> nth_error nodes (snd p) = Some nj -> ~ joins e ni nj.
+
+  Lemma edge_step_sym g p :
+    fst p < snd p -> snd p < length nodes ->
+    (forall x, In x nodes -> In x (node_ids g)) ->
+    (k = TS -> forall x, In x nodes -> has_lag g x) ->
+    fresh_for g [p] ->
+    exists g' ni nj,
+      edge_step parse fmt k a nodes (Ok g) p = Ok g'
+      /\ node_ids g' = node_ids g /\ (forall x, node_lag g' x = node_lag g x)
+      /\ nth_error nodes (fst p) = Some ni /\ nth_error nodes (snd p) = Some nj
+      /\ ((entry a (fst p) (snd p) = Some 0%Z /\ gsrc g' = gsrc g)
+          \/ (entry a (fst p) (snd p) = Some 1%Z
+              /\ exists e, gsrc g' = gsrc g ++ [e] /\ ety e = Und /\ joins e ni nj)).
+  Proof.
+    intros Hlt Hj Hin Hlag Hfresh. unfold edge_step. cbn [bind].
+    assert (Hi : fst p < length nodes) by lia.
+    rewrite <- (Hsym Hi Hj).
+    destruct (nth_error nodes (fst p)) as [ni|] eqn:Eni; [|apply nth_error_None in Eni; lia].
+    destruct (nth_error nodes (snd p)) as [nj|] eqn:Enj; [|apply nth_error_None in Enj; lia].
+    destruct (Hbin Hi Hj) as [Hx|Hx]; rewrite Hx; cbn [Z.eqb negb andb].
+    - exists g, ni, nj. repeat split; auto.
+    - assert (Hne : ni <> nj).
+      { intros ->. assert (fst p = snd p) by (eapply nodup_nth_inj; eassumption). lia. }
+      assert (Hni : In ni (node_ids g)) by (apply Hin; eapply nth_error_In; exact Eni).
+      assert (Hnj : In nj (node_ids g)) by (apply Hin; eapply nth_error_In; exact Enj).
+      assert (Hk1 : ~ In (ni, nj) (edge_keys g)).
+      { unfold edge_keys. rewrite in_map_iff. intros (e & Hk & He).
+        apply (Hfresh e p ni nj He (or_introl eq_refl) Eni Enj). left; exact Hk. }
+      assert (Hk2 : ~ In (nj, ni) (edge_keys g)).
+      { unfold edge_keys. rewrite in_map_iff. intros (e & Hk & He).
+        apply (Hfresh e p ni nj He (or_introl eq_refl) Eni Enj). right; exact Hk. }
+      destruct (@add_edge_und_any parse fmt k g ni nj Hni Hnj Hne Hk1 Hk2) as (s' & d' & Hadd & Hsd).
+      { intros Hk. split; apply (Hlag Hk); eapply nth_error_In; eassumption. }
+      rewrite Hadd. exists (insert_edge g (mk_edge s' d' Und)), ni, nj.
+      split; [reflexivity|]. split; [apply insert_edge_ids|]. split; [apply insert_edge_lag|].
+      split; [reflexivity|]. split; [reflexivity|]. right. split; [reflexivity|].
+      exists (mk_edge s' d' Und). split; [apply insert_edge_src|]. split; [reflexivity|].
+      unfold joins, edge_key; simpl. destruct Hsd as [Hsd|Hsd]; [left|right]; exact Hsd.
+  Qed.
+
+  Lemma loop_sym P : forall g,
+    (forall p, In p P -> fst p < snd p /\ snd p < length nodes) -> NoDup P ->
+    (forall x, In x nodes -> In x (node_ids g)) ->
+    (k = TS -> forall x, In x nodes -> has_lag g x) ->
+    fresh_for g P ->
+    exists g', fold_left (edge_step parse fmt k a nodes) P (Ok g) = Ok g'
+      /\ node_ids g' = node_ids g
+      /\ (forall e', In e' (gsrc g') ->
+            In e' (gsrc g)
+            \/ (ety e' = Und /\ exists p ni nj, In p P /\ cell1 p ni nj /\ joins e' ni nj))
+      /\ (forall e, In e (gsrc g) -> In e (gsrc g'))
+      /\ (forall p ni nj, In p P -> cell1 p ni nj -> exists e', In e' (gsrc g') /\ joins e' ni nj).
+  Proof.
+    induction P as [|p P IH]; intros g HP Hnd Hin Hlag Hfresh.
+    - exists g. simpl. repeat split; auto. intros p ni nj [].
+    - inversion Hnd as [|? ? Hp Hnd']; subst.
+      destruct (HP p (or_introl eq_refl)) as [Hlt Hj].
+      destruct (@edge_step_sym g p Hlt Hj Hin Hlag) as (g1 & ni & nj & Hg1 & Hn1 & Hl1 & Eni & Enj & Hcase).
+      { intros e q ni nj He [<-|[]]. apply (Hfresh e p ni nj He (or_introl eq_refl)). }
+      cbn [fold_left]. rewrite Hg1.
+      assert (Hsub1 : forall e, In e (gsrc g) -> In e (gsrc g1)).
+      { intros e He. destruct Hcase as [(_ & ->)|(_ & e0 & -> & _)]; [exact He|].
+        apply in_app_iff. left; exact He. }
+      assert (Hnew1 : forall e, In e (gsrc g1) ->
+                In e (gsrc g) \/ (ety e = Und /\ joins e ni nj /\ entry a (fst p) (snd p) = Some 1%Z)).
+      { intros e He. destruct Hcase as [(_ & Hs)|(Hx & e0 & Hs & Ht & Hjn)]; rewrite Hs in He; [left; exact He|].
+        apply in_app_iff in He. destruct He as [He|[<-|[]]]; [left; exact He|right; auto]. }
+      destruct (IH g1) as (g' & Hg' & Hn' & Hfw & Hold & Hnew).
+      + intros q Hq. apply HP. right; exact Hq.
+      + exact Hnd'.
+      + intros x Hx. rewrite Hn1. apply Hin; exact Hx.
+      + intros Hk x Hx. destruct (Hlag Hk x Hx) as [l Hl]. exists l. rewrite Hl1. exact Hl.
+      + intros e q ni' nj' He Hq Hni' Hnj' Hjn.
+        destruct (Hnew1 e He) as [He0|(_ & Hjn0 & _)].
+        * apply (Hfresh e q ni' nj' He0 (or_intror Hq) Hni' Hnj' Hjn).
+        * destruct (HP q (or_intror Hq)) as [Hltq Hjq].
+          assert (Hpq : p <> q) by (intros ->; contradiction).
+          unfold joins in *.
+          destruct Hjn0 as [Hk|Hk]; destruct Hjn as [Hk'|Hk']; rewrite Hk in Hk'; injection Hk' as -> ->.
+          -- apply Hpq. destruct p, q; simpl in *. f_equal; eapply nodup_nth_inj; eassumption.
+          -- assert (fst p = snd q) by (eapply nodup_nth_inj; eassumption).
+             assert (snd p = fst q) by (eapply nodup_nth_inj; eassumption). lia.
+          -- assert (snd p = fst q) by (eapply nodup_nth_inj; eassumption).
+             assert (fst p = snd q) by (eapply nodup_nth_inj; eassumption). lia.
+          -- apply Hpq. destruct p, q; simpl in *. f_equal; eapply nodup_nth_inj; eassumption.
+      + exists g'. split; [exact Hg'|]. split; [congruence|]. split; [|split].
+        * intros e' He'. destruct (Hfw e' He') as [He1|(Ht & q & ni' & nj' & Hq & Hc & Hjn)].
+          -- destruct (Hnew1 e' He1) as [He0|(Ht & Hjn & Hx)]; [left; exact He0|].
+             right. split; [exact Ht|]. exists p, ni, nj. split; [left; reflexivity|].
+             split; [split; [exact Eni|split; [exact Enj|exact Hx]]|exact Hjn].
+          -- right. split; [exact Ht|]. exists q, ni', nj'. split; [right; exact Hq|]. split; assumption.
+        * intros e He. apply Hold, Hsub1, He.
+        * intros q ni' nj' [<-|Hq] Hc; [|apply (Hnew q ni' nj' Hq Hc)].
+          destruct Hc as (Hni' & Hnj' & Hx).
+          rewrite Eni in Hni'. rewrite Enj in Hnj'. injection Hni' as <-. injection Hnj' as <-.
+          destruct Hcase as [(Hx0 & _)|(_ & e0 & Hs & _ & Hjn)]; [congruence|].
+          exists e0. split; [|exact Hjn]. apply Hold. rewrite Hs. apply in_app_iff. right; left; reflexivity.
+  Qed.
+End SymLoop.
+
+Section RebuildOwnClass.
+  Variable parse : name -> option (name * Z).
+  Variable fmt : name -> Z -> option name.
+  Variable k : kind.
+  Variable g : graph.
+  Variable a : matrix.
+  Variable names : list name.
+  Hypothesis HI : Inv parse k g.
+  Hypothesis Hspec : sk_matrix_spec g a names.
+
+  (** the skeleton's matrix / networkx form read back WITH THE GRAPH'S OWN CLASS *)
+  Theorem sk_rebuild_own_novalidate :
+    exists g', from_matrix parse fmt k a (Some names) false = Ok g'
+               /\ node_ids g' = names /\ same_skeleton g g'.
+  Proof.
+    destruct Hspec as (Hnd & Hnames & Hd & Hb & Hadj).
+    set (n := length names) in *.
+    assert (Hla : length a = n) by apply Hd.
+    assert (Hsym : forall i j, i < n -> j < n -> entry a i j = entry a j i).
+    { intros i j Hi Hj.
+      destruct (nth_error names i) as [ni|] eqn:Eni; [|apply nth_error_None in Eni; unfold n in *; lia].
+      destruct (nth_error names j) as [nj|] eqn:Enj; [|apply nth_error_None in Enj; unfold n in *; lia].
+      pose proof (Hadj i j ni nj Eni Enj) as H1. pose proof (Hadj j i nj ni Enj Eni) as H2.
+      rewrite (adjacent_sym g nj ni) in H2.
+      destruct (Hb i j Hi Hj) as [Hx|Hx]; destruct (Hb j i Hj Hi) as [Hy|Hy]; try congruence.
+      - exfalso. apply H2, H1 in Hy. congruence.
+      - exfalso. apply H1, H2 in Hx. congruence. }
+    unfold from_matrix.
+    assert (Hsq : is_square a = true) by (apply is_square_true_iff; rewrite Hla; exact Hd).
+    rewrite Hsq, (binary_is_binary Hd Hb). cbn [negb].
+    rewrite (proj2 (Nat.eqb_eq (length names) (length a)) (eq_sym Hla)). cbn [bind run_op].
+    destruct (@add_nodes_any parse k names (empty_graph []) Hnd) as (g0 & Hg0 & Hn0 & Hs0 & Hl0 & _).
+    { intros x _ []. }
+    { intros Hk x Hx. apply Hnames in Hx. unfold node_ids in Hx. apply in_map_iff in Hx.
+      destruct Hx as (nd & <- & Hin). rewrite Hk in HI.
+      destruct (ts_nodeok (inv_ts HI eq_refl) nd Hin) as (v & l & Hp & _). exists v, l; exact Hp. }
+    rewrite Hg0. cbn [fst bind]. simpl in Hn0.
+    destruct (@loop_sym parse fmt k a names Hnd Hb Hsym (pairs n) g0) as (g' & Hg' & Hn' & Hfw & _ & Hnew).
+    - intros [i j] Hp. apply in_pairs in Hp. simpl. unfold n in *. lia.
+    - apply pairs_nodup.
+    - intros x Hx. rewrite Hn0. exact Hx.
+    - exact Hl0.
+    - intros e p ni nj He. rewrite Hs0 in He. destruct He.
+    - fold n. rewrite Hg'. cbn [bind]. exists g'. split; [reflexivity|]. split; [congruence|].
+      split; [|split].
+      + intros x. rewrite Hn', Hn0. apply Hnames.
+      + intros s d. split.
+        * rewrite adjacent_edge. intros (e' & He' & Hk).
+          destruct (Hfw e' He') as [He0|(_ & p & ni & nj & _ & (Hni & Hnj & Hx) & Hjn)];
+            [rewrite Hs0 in He0; destruct He0|].
+          apply (Hadj _ _ _ _ Hni Hnj) in Hx.
+          unfold joins in Hjn. destruct Hk as [Hk|Hk]; destruct Hjn as [Hj|Hj];
+            rewrite Hk in Hj; injection Hj as -> ->; auto; apply adjacent_sym; exact Hx.
+        * intros Hadj'.
+          assert (Hsd : s <> d).
+          { apply adjacent_edge in Hadj'. destruct Hadj' as (e & He & Hk). intros ->.
+            apply (inv_noloop HI e He). unfold edge_key in Hk. destruct Hk as [Hk|Hk]; congruence. }
+          assert (Hs : In s names /\ In d names).
+          { apply adjacent_edge in Hadj'. destruct Hadj' as (e & He & Hk).
+            destruct (inv_endpoints HI e He) as [H1 H2]. rewrite !Hnames.
+            unfold edge_key in Hk. destruct Hk as [Hk|Hk]; injection Hk as <- <-; auto. }
+          destruct Hs as [Hs Hd']. apply In_nth_error in Hs, Hd'.
+          destruct Hs as [i Hni]. destruct Hd' as [j Hnj].
+          assert (Hi : i < n) by (apply nth_error_Some; congruence).
+          assert (Hj : j < n) by (apply nth_error_Some; congruence).
+          assert (Hij : i <> j) by (intros ->; congruence).
+          apply adjacent_edge.
+          destruct (Nat.lt_ge_cases i j) as [Hlt|Hge].
+          -- destruct (Hnew (i, j) s d) as (e' & He' & Hjn).
+             ++ apply in_pairs. lia.
+             ++ split; [exact Hni|]. split; [exact Hnj|]. apply (Hadj _ _ _ _ Hni Hnj). exact Hadj'.
+             ++ exists e'. split; [exact He'|exact Hjn].
+          -- destruct (Hnew (j, i) d s) as (e' & He' & Hjn).
+             ++ apply in_pairs. lia.
+             ++ split; [exact Hnj|]. split; [exact Hni|]. apply (Hadj _ _ _ _ Hnj Hni).
+                apply adjacent_sym. exact Hadj'.
+             ++ exists e'. split; [exact He'|]. unfold joins in Hjn. destruct Hjn; auto.
+      + intros e' He'. destruct (Hfw e' He') as [He0|(Ht & _)]; [rewrite Hs0 in He0; destruct He0|exact Ht].
+  Qed.
+
+  Hypothesis inv_init : inv_init_statement parse.
+  Hypothesis inv_step : inv_step_statement parse fmt.
+  Hypothesis cycle_check : cycle_check_statement parse.
+
+  Theorem sk_rebuild_own v :
+    exists g', from_matrix parse fmt k a (Some names) v = Ok g'
+               /\ node_ids g' = names /\ same_skeleton g g' /\ Inv parse k g'.
+  Proof.
+    destruct sk_rebuild_own_novalidate as (g' & Hg' & Hids & Hsame).
+    assert (HI' : Inv parse k g') by (eapply from_matrix_inv; eassumption).
+    exists g'. split; [|auto]. destruct v; [|exact Hg'].
+    rewrite (from_matrix_validated _ _ _ _ _ Hg').
+    rewrite check_nodes_ok; [reflexivity|].
+    intros d Hd. rewrite <- Hids in Hd.
+    destruct (@cycle_check k g' d HI' Hd) as (b & Hb & Hiff). rewrite Hb.
+    destruct b; [|reflexivity]. exfalso.
+    assert (Hp : path (dgraph g') d d) by (apply Hiff; reflexivity).
+    assert (Hfirst : exists w, arc (dgraph g') d w).
+    { clear -Hp. unfold path in Hp. remember d as d' in Hp at 2. clear Heqd'.
+      induction Hp as [x y Hxy|x y z _ IH1 _ _]; [exists y; exact Hxy|exact IH1]. }
+    destruct Hfirst as (w & Hw). apply arc_has_edge in Hw. destruct Hw as (e & He & _ & Ht).
+    destruct Hsame as (_ & _ & Hund). rewrite (Hund e He) in Ht. discriminate.
+  Qed.
+End RebuildOwnClass.
+
+(** C09: rebuilt with the graph's own class (in particular a time-series skeleton read back as
+    a time-series graph), validate=False *)
+Theorem sk_rebuild_matrix_own_novalidate parse fmt k g a names :
+  Inv parse k g -> sk_to_numpy g = Ok (a, names) ->
+  exists g', sk_from_matrix parse fmt k a (Some names) false = Ok g' /\ same_skeleton g g'.
+Proof.
+  intros HI H. unfold sk_to_numpy in H. destruct (sk_adjacency g) as [a'|x] eqn:Ea; [|discriminate].
+  simpl in H. injection H as <- <-.
+  destruct (@sk_rebuild_own_novalidate parse fmt k g a' (v_node_names g) HI (sk_adjacency_spec HI Ea))
+    as (g' & Hg' & _ & Hs).
+  exists g'. split; assumption.
+Qed.
+
+Theorem sk_rebuild_nx_own_novalidate parse fmt k g :
+  Inv parse k g ->
+  exists g', sk_from_nx parse fmt k (sk_to_nx g) false = Ok g' /\ same_skeleton g g'.
+Proof.
+  intros HI.
+  destruct (@sk_rebuild_own_novalidate parse fmt k g _ _ HI (sk_to_nx_spec HI)) as (g' & Hg' & _ & Hs).
+  exists g'. split; assumption.
+Qed.
+
+Section WithGraphInvSkOwn.
+  Variable parse : name -> option (name * Z).
+  Variable fmt : name -> Z -> option name.
+  (** GraphInvProofs.v / GraphAcyclicProofs.v (colleagues), exact shape of GraphInv.v *)
+  Hypothesis inv_init : inv_init_statement parse.
+  Hypothesis inv_step : inv_step_statement parse fmt.
+  Hypothesis cycle_check : cycle_check_statement parse.
+
+  (** [Skeleton.from_adjacency_matrix( *sk.to_numpy(), graph_class=type(g), validate=v)] *)
+  Theorem sk_rebuild_matrix_own k g a names v :
+    Inv parse k g -> sk_to_numpy g = Ok (a, names) ->
+    exists g', sk_from_matrix parse fmt k a (Some names) v = Ok g'
+               /\ same_skeleton g g' /\ Inv parse k g'.
+  Proof.
+    intros HI H. unfold sk_to_numpy in H. destruct (sk_adjacency g) as [a'|x] eqn:Ea; [|discriminate].
+    simpl in H. injection H as <- <-.
+    destruct (@sk_rebuild_own parse fmt k g a' (v_node_names g) HI (sk_adjacency_spec HI Ea)
+                inv_init inv_step cycle_check v) as (g' & Hg' & _ & Hs & HI').
+    exists g'. auto.
+  Qed.
+
+  (** [Skeleton.from_networkx(sk.to_networkx(), graph_class=type(g), validate=v)] and
+      [type(g).from_skeleton(sk, validate=v)] *)
+  Theorem sk_rebuild_nx_own k g v :
+    Inv parse k g ->
+    exists g', sk_from_nx parse fmt k (sk_to_nx g) v = Ok g'
+               /\ same_skeleton g g' /\ Inv parse k g'.
+  Proof.
+    intros HI.
+    destruct (@sk_rebuild_own parse fmt k g _ _ HI (sk_to_nx_spec HI)
+                inv_init inv_step cycle_check v) as (g' & Hg' & _ & Hs & HI').
+    exists g'. auto.
+  Qed.
+End WithGraphInvSkOwn.
+
+(** the dictionary form: stated, validated by the correspondence check (0 mismatches, the
+    rebuilt skeleton == the original on every sampled graph of both classes), not proved here *)
+Definition sk_rebuild_dict_statement : Prop :=
+  forall parse fmt k g,
+    inv_init_statement parse -> inv_step_statement parse fmt -> cycle_check_statement parse ->
+    Inv parse k g ->
+    exists g', sk_from_dict parse fmt k g = Ok g' /\ same_skeleton g g'.
+
+(** * Examples: non-vacuity and the behaviour observed on the implementation *)
+From CG Require Import Names.
+
+Module SkeletonExamples.
+  Import MatrixExamples.
+  Local Open Scope N_scope.
+
+  (** [gex] is a -> b, c -- b, isolated d.  Observed on the implementation:
+      skeleton.adjacency_matrix = [[0,1,0,0],[1,0,1,0],[0,1,0,0],[0,0,0,0]],
+      skeleton.get_neighbors('b') = {'a','c'}, get_neighbors('zz') raises AssertionError,
+      skeleton.get_edge('b','c') = Edge("c","b",--), get_edge('a','c') raises AssertionError *)
+  Example gex_sk_adjacency :
+    sk_adjacency gex = Ok [[0; 1; 0; 0]; [1; 0; 1; 0]; [0; 1; 0; 0]; [0; 0; 0; 0]]%Z.
+  Proof. vm_compute. reflexivity. Qed.
+  Example gex_sk_edges :
+    map (fun e => (esrc e, edst e, ety e)) (sk_edges gex) = [(na, nb, Und); (nc, nb, Und)].
+  Proof. vm_compute. reflexivity. Qed.
+  Example gex_sk_nodes :
+    sk_nodes parse Plain gex
+    = Ok [(na, VUnspec, []); (nb, VUnspec, []); (nc, VUnspec, []); (nd, VUnspec, [])].
+  Proof. vm_compute. reflexivity. Qed.
+  Example gex_sk_neighbors :
+    sk_neighbors gex nb = Ok [na; nc] /\ sk_neighbors gex nd = Ok []
+    /\ sk_neighbors gex [122; 122] = Err EAssert.
+  Proof. repeat split; vm_compute; reflexivity. Qed.
+  Example gex_sk_get_edge :
+    (exists e, sk_get_edge gex nb nc = Ok e /\ (esrc e, edst e, ety e) = (nc, nb, Und))
+    /\ sk_get_edge gex na nc = Err EAssert
+    /\ sk_edge_exists gex nb na = true /\ sk_edge_exists gex na nc = false.
+  Proof. split; [eexists; split; vm_compute; reflexivity|]. repeat split; vm_compute; reflexivity. Qed.
+
+  (** the hypotheses of the C09 theorems hold of [gex] ([MatrixExamples.gex_inv]); rebuilding
+      its skeleton from the matrix gives a -- b, b -- c and the isolated node *)
+  Example gex_sk_rebuild :
+    exists g', sk_from_matrix parse fmt Plain
+                 [[0; 1; 0; 0]; [1; 0; 1; 0]; [0; 1; 0; 0]; [0; 0; 0; 0]]%Z
+                 (Some [na; nb; nc; nd]) true = Ok g'
+      /\ map (fun e => (esrc e, edst e, ety e)) (v_edges g') = [(na, nb, Und); (nb, nc, Und)]
+      /\ v_node_names g' = [na; nb; nc; nd]
+      /\ sk_eqb gex g' = true.
+  Proof. eexists. split; [vm_compute; reflexivity|]. repeat split; vm_compute; reflexivity. Qed.
+
+  Example gex_sk_rebuild_thm :
+    exists g', sk_from_matrix parse fmt Plain
+                 [[0; 1; 0; 0]; [1; 0; 1; 0]; [0; 1; 0; 0]; [0; 0; 0; 0]]%Z
+                 (Some [na; nb; nc; nd]) false = Ok g' /\ same_skeleton gex g'.
+  Proof.
+    apply (@sk_rebuild_matrix_novalidate parse fmt Plain gex _ _ gex_inv). vm_compute. reflexivity.
+  Qed.
+
+  Example gex_sk_rebuild_nx_dict :
+    (exists g', sk_from_nx parse fmt Plain (sk_to_nx gex) true = Ok g' /\ sk_eqb gex g' = true)
+    /\ (exists g', sk_from_dict parse fmt Plain gex = Ok g' /\ sk_eqb gex g' = true).
+  Proof. split; eexists; split; vm_compute; reflexivity. Qed.
+
+  (** a time-series graph: x lag(n=1) -> x, and the skeleton rebuilt with the time-series class *)
+  Definition gts : graph :=
+    run parse fmt TS [OAddEdge (str_ep x1) (str_ep x0) Dir None true] (empty_graph []).
+  Example gts_sk :
+    sk_adjacency gts = Ok [[0; 1]; [1; 0]]%Z
+    /\ (exists g', sk_from_matrix parse fmt TS [[0; 1]; [1; 0]]%Z (Some [x0; x1]) true = Ok g'
+                   /\ map (fun e => (esrc e, edst e, ety e)) (v_edges g') = [(x1, x0, Und)]
+                   /\ sk_eqb gts g' = true)
+    /\ (exists l, sk_nodes parse TS gts = Ok l /\ map n3_id l = [x0; x1]).
+  Proof.
+    split; [vm_compute; reflexivity|]. split; eexists; (split; [vm_compute; reflexivity|]).
+    - split; vm_compute; reflexivity.
+    - vm_compute; reflexivity.
+  Qed.
+
+  Lemma gts_inv : Inv parse TS gts.
+  Proof.
+    constructor.
+    - vm_compute. repeat constructor; simpl; intuition discriminate.
+    - vm_compute. apply Permutation_refl.
+    - vm_compute. repeat constructor; simpl; intuition discriminate.
+    - intros e He. vm_compute in He. destruct He as [<-|[]]; vm_compute; intuition.
+    - intros e He. vm_compute in He. destruct He as [<-|[]]; vm_compute; discriminate.
+    - intros e He. vm_compute in He. destruct He as [<-|[]]; vm_compute; intuition discriminate.
+    - intros n Hn. vm_compute in Hn. destruct Hn as [<-|[<-|[]]]; vm_compute; apply Permutation_refl.
+    - intros n Hn. vm_compute in Hn. destruct Hn as [<-|[<-|[]]]; vm_compute; apply Permutation_refl.
+    - discriminate.
+    - intros _. constructor.
+      + intros n Hn. vm_compute in Hn. destruct Hn as [<-|[<-|[]]]; eexists; eexists;
+          vm_compute; repeat split; reflexivity.
+      + vm_compute. repeat constructor.
+      + vm_compute. repeat constructor.
+      + intros e He. vm_compute in He. destruct He as [<-|[]]. exists (-1)%Z, 0%Z.
+        vm_compute. repeat split; discriminate.
+  Qed.
+
+  (** the hypotheses of the own-class rebuild theorem hold of a time-series graph *)
+  Example gts_sk_rebuild_thm :
+    exists g', sk_from_matrix parse fmt TS [[0; 1]; [1; 0]]%Z (Some [x0; x1]) false = Ok g'
+               /\ same_skeleton gts g'.
+  Proof.
+    apply (@sk_rebuild_matrix_own_novalidate parse fmt TS gts _ _ gts_inv). vm_compute. reflexivity.
+  Qed.
+End SkeletonExamples.
